@@ -906,8 +906,46 @@ class _CounterLoops(ast.NodeTransformer):
         return out
 
 
+def _inline_range_bounds(fn: ast.FunctionDef) -> ast.FunctionDef:
+    """A local bound once to plain arithmetic over names that are bound nowhere else (`block_bytes = 4 * n_words`) is written out inside
+    the arguments of `range(..)`, so that the stepped-range and offset-range forms see the arithmetic."""
+    binds: dict = {}
+    for n in ast.walk(fn):
+        if isinstance(n, ast.Name) and isinstance(n.ctx, (ast.Store, ast.Del)):
+            binds[n.id] = binds.get(n.id, 0) + 1
+    params = {a.arg for a in fn.args.posonlyargs + fn.args.args + fn.args.kwonlyargs}
+    cands: dict = {}
+    for n in ast.walk(fn):
+        if isinstance(n, ast.Assign) and len(n.targets) == 1 and isinstance(n.targets[0], ast.Name) and binds.get(n.targets[0].id) == 1 \
+                and n.targets[0].id not in params and isinstance(n.value, (ast.BinOp, ast.Attribute)) \
+                and not any(isinstance(x, (ast.Call, ast.Subscript, ast.IfExp, ast.Lambda, ast.NamedExpr)) for x in ast.walk(n.value)):
+            free = {x.id for x in ast.walk(n.value) if isinstance(x, ast.Name)}
+            if all(binds.get(v, 0) == 0 for v in free):
+                cands[n.targets[0].id] = n.value
+    if not cands:
+        return fn
+    hit = [False]
+
+    class A(ast.NodeTransformer):
+        def visit_Name(self, n: ast.Name):
+            if isinstance(n.ctx, ast.Load) and n.id in cands:
+                hit[0] = True
+                return copy.deepcopy(cands[n.id])
+            return n
+
+    class T(ast.NodeTransformer):
+        def visit_Call(self, n: ast.Call):
+            self.generic_visit(n)
+            if isinstance(n.func, ast.Name) and n.func.id == "range" and not n.keywords:
+                n.args = [A().visit(a) for a in n.args]
+            return n
+    new = T().visit(copy.deepcopy(fn))
+    return new if hit[0] else fn
+
+
 def normalise_loops(fn: ast.FunctionDef) -> ast.FunctionDef:
     fn = _inline_iterables(fn)
+    fn = _inline_range_bounds(fn)
     fn = _ZipCount().visit(copy.deepcopy(fn))
     ast.fix_missing_locations(fn)
     fn = _CounterLoops(fn).visit(fn)
